@@ -168,6 +168,14 @@ class ProtocolModel:
                         parent=(a[1].key() if len(a) > 1 else k.get("parent_id", NONE).key()))
                 return NONE
             hooks[rio.fq] = _hook_orphancheck
+        rib = self.state_cls.methods.get("raise_if_in_orphaned_branch")
+        if rib is not None:
+            def _hook_branchcheck(it, fn, sv, a, k, n):
+                # entry query: is the nearest enclosing context that is still open (the branch doing the work) orphaned?
+                # (its semantics are judged separately on small scenarios: common.branch_query_scenarios)
+                it.emit("BRANCHCHECK", n, parent=(a[0].key() if a else k.get("parent_id", NONE).key()))
+                return NONE
+            hooks[rib.fq] = _hook_branchcheck
         if extra_hooks:
             hooks.update(extra_hooks)
         return Config(
